@@ -248,3 +248,9 @@ NOT_APPLICABLE = {
 for _p in ["C%02d" % i for i in range(1, 21)]:
     if _p not in PROPS and _p not in NOT_APPLICABLE:
         NOT_APPLICABLE[_p] = "check not built yet in this revision (planned: DESIGN.md §4)"
+
+# default entry points by harness-name prefix (evidence only)
+ENTRY = {"t": "Foca::handle_timer", "a": "Foca public API call", "d": "Foca::handle_data", "c07": "Foca::send_message (private)", "c13": "Foca::handle_timer (stale epoch)",
+         "c17": "Foca::handle_data (rejected input)", "c06": "Foca::set_config / handle_data with adversarial payload / Config constructors", "c16": "Foca::add_broadcast / broadcast",
+         "bc": "Broadcasts::{add_or_replace, fill, fill_with_len_prefix}", "c20": "PostcardCodec / BincodeCodec via Codec trait", "c14": "Members::next", "c01": "Members::apply", "c11": "Foca::handle_timer(ChangeSuspectToDown)",
+         "c15": "Foca::handle_apply_summary (real backlog)", "c08": "AccumulatingRuntime"}
